@@ -1333,8 +1333,16 @@ func (e *Exec) evalLoc(x Expr, env *Env) location {
 			return location{kind: "heap", heap: cell.Heap, hs: cell.HS, ref: cell.Ref}
 		}
 		// a package-level variable of the function's own package
+		var spkg *ssa.Package
 		if env.fr != nil && env.fr.fn != nil && env.fr.fn.Pkg != nil {
-			if g, ok := env.fr.fn.Pkg.Members[x.Name].(*ssa.Global); ok {
+			spkg = env.fr.fn.Pkg
+		} else if env.home != nil {
+			spkg = e.P.SSA.Package(env.home)
+		} else if e.ctxPkg != nil {
+			spkg = e.P.SSA.Package(e.ctxPkg)
+		}
+		if spkg != nil {
+			if g, ok := spkg.Members[x.Name].(*ssa.Global); ok {
 				if a := e.globalAddr(g).Addr; a != nil && a.Kind == "global" {
 					e.get(env.st, a.Heap, a.HS)
 					return location{kind: "heap", heap: a.Heap, hs: a.HS, whole: true}
